@@ -60,6 +60,9 @@ ProfileMissing(s) == ~s.profp /\ \E e \in s.present : e \in s.usesp
 \* a run over such a directory is refused as a whole: a failed run, nothing written. (Open comes first and refuses a dangling
 \* issuer under any flag set; the profile is looked up while planning, and a run without any generate flag does not plan.)
 Refusing(s, fl) == Dangling(s) \/ (ProfileMissing(s) /\ fl # {})
+\* ... and whether a run that has nothing to plan (no generate flag) may ALSO stop at a missing profile is said by no property: both
+\* outcomes are allowed (silent corner; today's code does not look the profile up in that case)
+MayRefuse(s, fl) == Refusing(s, fl) \/ ProfileMissing(s)
 
 \* hash / certc: content value of the entity's own configuration the stored hash / the certificate stands for;
 \* hashp / certp: the same for the profile part of the effective configuration (0 = no profile, ProfBase + content otherwise);
@@ -308,6 +311,7 @@ Apply(s, a) ==
             /\ { a.plan[i] : i \in DOMAIN a.plan } \in PlanSets(s, a.fl)
             /\ a.plan \in TopoOrders(s, { a.plan[i] : i \in DOMAIN a.plan })
          THEN IF a.plan = <<>> THEN {[s EXCEPT !.flags = a.fl, !.last = "run-ok"]}
+                                     \cup (IF MayRefuse(s, a.fl) THEN {[s EXCEPT !.flags = a.fl, !.last = "run-failed"]} ELSE {})
               ELSE {[s EXCEPT !.pc = "running", !.plan = a.plan, !.pos = 1, !.flags = a.fl, !.last = "env"]}
          ELSE {}
     [] a.name = "WriteOK" ->       \* GenerateArtifacts + exportPemFile of the next planned entity
